@@ -795,7 +795,7 @@ def dpsk_detection_evaluated(dd: FuncInfo):
 def dpsk_modulator_evaluated(repo: Repo):
     """DPSKModulator.forward (class helpers followed, the phase memory kept on the object) evaluated with own arithmetic for
     orders 4 and 8 on one row and on a batch of two rows of bit groups, in training and in evaluation mode, with a
-    stand-in phase table exp(2 pi j k / M): symbol t = symbol t-1 * table[index of bit group t], symbol -1 being the
+    stand-in phase table exp(2 pi j k / M) and with the offset table exp(j pi (2k + 1) / M) (not closed under products): symbol t = symbol t-1 * table[index of bit group t], symbol -1 being the
     phase memory; the memory left behind is the last symbol (its mean over the batch) in training mode and unchanged in
     evaluation mode.  The index of a bit group is compared as the natural-binary integer (the labelling is decided by
     the LABEL rule).  Returns (status, detail) or (None, reason)."""
@@ -806,8 +806,9 @@ def dpsk_modulator_evaluated(repo: Repo):
     fwd = repo.method(ci, "forward")
     funcs = {f"self.{nm}": m.node for nm, m in ci.methods.items() if nm not in ("forward", "__init__")}
     runs = 0
-    for M, b in ((4, 2), (8, 3)):
-        table = [cmath.exp(2j * math.pi * k / M) for k in range(M)]
+    for M, b, off in ((4, 2, 0.0), (8, 3, 0.0), (4, 2, 1.0), (8, 3, 1.0)):
+        # off = 1: the phase steps carry an offset of pi / M (the class's table without Gray coding) - not closed under products
+        table = [cmath.exp(1j * math.pi * (2 * k + off) / M) for k in range(M)]
         rows1 = [[(i * 5 + 3) % M for i in range(3)]]
         rows2 = [[1, M - 1, 2], [3, 0, 1]]
         for rows in (rows1, rows2):
@@ -836,7 +837,7 @@ def dpsk_modulator_evaluated(repo: Repo):
                 except TypeError:
                     return None, "the result is not a block of complex symbols"
                 if not ok:
-                    return VIOLATION, f"order {M}, bit groups {rows}, phase memory {mem0}: the symbols are {str(out)[:150]}; differential encoding (symbol t = symbol t-1 times the phase step of group t, the memory first) gives {str(want)[:150]}"
+                    return VIOLATION, f"order {M}, phase steps exp(j pi (2k + {off:g}) / {M}), bit groups {rows}, phase memory {mem0}: the symbols are {str(out)[:150]}; differential encoding (symbol t = symbol t-1 times the phase step of group t, the memory first) gives {str(want)[:150]}"
                 mem = attrs.get("self._phase_memory")
                 while isinstance(mem, list) and len(mem) == 1:
                     mem = mem[0]
@@ -845,7 +846,7 @@ def dpsk_modulator_evaluated(repo: Repo):
                 if mem is None or isinstance(mem, list) or abs(complex(mem) - want_m) > 1e-9:
                     return VIOLATION, f"order {M}, {'training' if training else 'evaluation'} mode: the phase memory left for the next call is {mem!r} instead of {want_m}"
                 runs += 1
-    return OK, f"{runs} runs (orders 4, 8; one row and two rows; training and evaluation mode): symbol t = symbol t-1 * phase step t with the memory first; memory = last symbol in training mode, unchanged in evaluation mode"
+    return OK, f"{runs} runs (orders 4, 8; phase tables with and without the pi/M offset; one row and two rows; training and evaluation mode): symbol t = symbol t-1 * phase step t with the memory first; memory = last symbol in training mode, unchanged in evaluation mode"
 
 
 def oqpsk_modulator_evaluated(repo: Repo):
